@@ -83,7 +83,8 @@ def C03_main_distinct_dest_stmt : Prop :=
 is overwritten by the second. -/
 theorem C03_main_distinct_dest_false : ¬ C03_main_distinct_dest_stmt := by
   intro h
-  exact h ⟨1, fun _ => none, fun _ => true, fun _ => true⟩ [100] .cobertura .coberturaPretty rfl
+  exact h { cpus := 1, canon := fun _ => none, isDir := fun _ => true, mappingReadable := fun _ => true }
+    [100] .cobertura .coberturaPretty rfl
     (by decide) rfl
 
 /-- What holds: two different types share a destination in a directory ONLY if they are the two
@@ -273,6 +274,81 @@ theorem C03_main_writer_of_type (env : Env) (o : Opts) (p : Plan) (h : plan env 
   obtain ⟨t, _, rfl⟩ := hout
   rfl
 
+/-! ### external tools, routes of notes files, log target -/
+
+/-- Where `llvm-profdata` / `llvm-cov` are looked for: in the `--llvm-path` directory when the
+option is given, else in `<rustc sysroot>/lib/rustlib/<host>/bin`; when rustc cannot be asked,
+nowhere. A tool that is not at that one place is "not found" (the profile item is skipped). -/
+theorem C03_main_llvm_tool_precedence (env : Env) (o : Opts) (t : LlvmTool) :
+    (∀ d, o.rest.llvmPath = some d →
+      llvmToolPath env o t = if env.toolExists (push d t.exe) then .found (push d t.exe)
+                             else .notFound (push d t.exe)) ∧
+    (o.rest.llvmPath = none → ∀ d, env.rustlibBin = some d →
+      llvmToolPath env o t = if env.toolExists (push d t.exe) then .found (push d t.exe)
+                             else .notFound (push d t.exe)) ∧
+    (o.rest.llvmPath = none → env.rustlibBin = none → llvmToolPath env o t = .noRustc) := by
+  refine ⟨?_, ?_, ?_⟩
+  · intro d h; simp [llvmToolPath, h]
+  · intro h d hd; simp [llvmToolPath, h, hd]
+  · intro h hd; simp [llvmToolPath, h, hd]
+
+/-- `--llvm-path` wins and there is NO fall-back: with the option, the answer does not depend on
+the sysroot (a tool missing from the named directory is not taken from the toolchain). And the
+environment variable `LLVM_PATH` is never consulted, with or without the option. -/
+theorem C03_main_llvm_path_wins_env_ignored (env : Env) (o : Opts) (t : LlvmTool) :
+    (∀ d, o.rest.llvmPath = some d → ∀ r, llvmToolPath { env with rustlibBin := r } o t = llvmToolPath env o t) ∧
+    (∀ v, llvmToolPath { env with envLlvmPath := v } o t = llvmToolPath env o t) := by
+  refine ⟨?_, ?_⟩
+  · intro d h r; simp [llvmToolPath, h]
+  · intro v; rfl
+
+/-- A notes file goes to the in-process reader iff `--llvm` is given or its header is LLVM's
+(`oncg*204` / `oncg*804`); otherwise to the external gcov tool, which is `$GCOV`, else `gcov`. -/
+theorem C03_main_gcno_route (isLlvm : Bool) (h : Bytes) (env : Env) :
+    (gcnoRoute isLlvm h = .buffers ↔ isLlvm = true ∨ headerIsLlvm h = true) ∧
+    (gcnoRoute isLlvm h = .gcovTool ↔ isLlvm = false ∧ headerIsLlvm h = false) ∧
+    (headerIsLlvm h = true ↔ h.take 8 = [111, 110, 99, 103, 42, 50, 48, 52] ∨
+                              h.take 8 = [111, 110, 99, 103, 42, 56, 48, 52]) ∧
+    (gcovExe env = match env.envGcov with | some g => g | none => bGcov) := by
+  refine ⟨?_, ?_, ?_, ?_⟩
+  · cases isLlvm <;> cases hh : headerIsLlvm h <;> simp [gcnoRoute, hh]
+  · cases isLlvm <;> cases hh : headerIsLlvm h <;> simp [gcnoRoute, hh]
+  · simp [headerIsLlvm]
+  · cases hg : env.envGcov <;> simp [gcovExe, hg]
+
+/-- The plan carries exactly these decisions: `--llvm-path` as given, the two tool resolutions,
+the gcov command, and one route per notes file decided by the `--llvm` flag. -/
+theorem C03_main_plan_tools (env : Env) (o : Opts) (p : Plan) (h : plan env o = .ok p) :
+    p.llvmPath = o.rest.llvmPath ∧ p.profdataTool = llvmToolPath env o .profdata ∧
+    p.covTool = llvmToolPath env o .cov ∧ p.gcovExe = gcovExe env ∧ p.llvm = o.rest.llvm ∧
+    p.gcnoRoutes = env.gcnoHeaders.map (gcnoRoute o.rest.llvm) := by
+  obtain ⟨sr, ms, ob, _, _, _, _, rfl⟩ := plan_ok h
+  exact ⟨rfl, rfl, rfl, rfl, rfl, rfl⟩
+
+/-- The log target: the literal values `stdout` and `stderr` are the terminal streams; any other
+value is a file when it can be created, and otherwise the run falls back to stderr (log lines are
+never lost, never on stdout unless asked for). -/
+theorem C03_main_log_target (env : Env) (o : Opts) (p : Plan) (h : plan env o = .ok p) :
+    (o.log = bStdout → p.log.stream = .out) ∧
+    (o.log = bStderr → p.log.stream = .err) ∧
+    (o.log ≠ bStdout → o.log ≠ bStderr → env.logCreatable o.log = true → p.log = .file o.log) ∧
+    (o.log ≠ bStdout → o.log ≠ bStderr → env.logCreatable o.log = false →
+      p.log = .stderrFallback o.log ∧ p.log.stream = .err) ∧
+    (p.log.stream = .out ↔ o.log = bStdout) := by
+  obtain ⟨sr, ms, ob, _, _, _, _, rfl⟩ := plan_ok h
+  have hne : bStderr ≠ bStdout := by decide
+  refine ⟨?_, ?_, ?_, ?_, ?_⟩
+  · intro e; simp [mkPlan, logTarget, e, LogTarget.stream]
+  · intro e; simp [mkPlan, logTarget, e, hne, LogTarget.stream]
+  · intro h1 h2 h3; simp [mkPlan, logTarget, h1, h2, h3]
+  · intro h1 h2 h3; simp [mkPlan, logTarget, h1, h2, h3, LogTarget.stream]
+  · simp only [mkPlan, logTarget]
+    by_cases h1 : o.log = bStdout
+    · simp [h1, LogTarget.stream]
+    · by_cases h2 : o.log = bStderr
+      · simp [h2, hne, LogTarget.stream]
+      · cases env.logCreatable o.log <;> simp [h1, h2, LogTarget.stream]
+
 /-! ### the front end -/
 
 /-- `-t a,b`, `-t a -t b` and any other split of the same names are the same request; without
@@ -406,5 +482,26 @@ example : (mainPlanOf (front mainExEnv { mainExRaw with typeArgs := [[OutputType
 /-- sorting three records by absolute path -/
 example : (sortRecs [⟨[47, 98], [98], {}⟩, ⟨[47, 97, 47, 99], [99], {}⟩, ⟨[47, 97], [97], {}⟩]).map (·.rel) =
     [[97], [99], [98]] := by decide
+
+/-- tools: `--llvm-path /a` with only `llvm-cov` there, the sysroot has both, `LLVM_PATH=/c` set -/
+def mainExToolEnv : Env :=
+  { mainExEnv with
+    rustlibBin := some [47, 98]
+    envLlvmPath := some [47, 99]
+    toolExists := fun p => p == [47, 97, 47, 108, 108, 118, 109, 45, 99, 111, 118] || p.take 2 == [47, 98]
+    gcnoHeaders := [[111, 110, 99, 103, 42, 56, 48, 52], [111, 110, 99, 103, 42, 55, 48, 65]]
+    logCreatable := fun p => p != [47, 120, 47, 108] }
+
+example : (mainPlanOf (front mainExToolEnv { mainExRaw with rest := { mainExRaw.rest with llvmPath := some [47, 97] } })).map
+      (fun p => (p.profdataTool, p.covTool)) =
+    some (.notFound [47, 97, 47, 108, 108, 118, 109, 45, 112, 114, 111, 102, 100, 97, 116, 97],
+          .found [47, 97, 47, 108, 108, 118, 109, 45, 99, 111, 118]) := by decide
+example : (mainPlanOf (front mainExToolEnv mainExRaw)).map (fun p => (p.profdataTool, p.gcnoRoutes)) =
+    some (.found [47, 98, 47, 108, 108, 118, 109, 45, 112, 114, 111, 102, 100, 97, 116, 97],
+          [.buffers, .gcovTool]) := by decide
+example : (mainPlanOf (front mainExToolEnv { mainExRaw with rest := { mainExRaw.rest with llvm := true } })).map
+      (·.gcnoRoutes) = some [.buffers, .buffers] := by decide
+example : (mainPlanOf (front mainExToolEnv { mainExRaw with log := some [47, 120, 47, 108] })).map (·.log) =
+    some (.stderrFallback [47, 120, 47, 108]) := by decide
 
 end Grcov.Props.C03
